@@ -38,6 +38,10 @@ class P(b1.Plugin):
         # variant + name disabled + method, ...) occur often enough
         u = rng.random() < 0.35
         td = gen.make_skeleton(rng, i, kind, ["L", "L", "S", "F", "K"], max_fields=3)
+        for v in td.variants:
+            for f in v.fields:
+                if f.name and f.name.startswith("r#"):
+                    f.name = "raw_" + f.name[2:]     # educe prints `r#type`, #[derive(Debug)] prints `type`: outside the property ("ordinary identifiers")
         td.plain = plain
         params = []
         tdef = "default" if kind == "struct" else "disable"
@@ -62,9 +66,14 @@ class P(b1.Plugin):
                     elif r < (0.67 if u else 0.4):
                         vname = ("disable", None)
             named = named_default if v.nf is None else v.nf
+            all_method = u and rng.random() < 0.25        # every shown field through a custom method
             for f in v.fields:
                 req = {"ignore": False, "method": None, "rename": None}
-                if not plain:
+                if not plain and all_method:
+                    req["ignore"] = rng.random() < 0.3
+                    if not req["ignore"]:
+                        req["method"] = gen.METHOD_LEAVES.index(f.ty)
+                elif not plain:
                     r = rng.random()
                     req["ignore"] = r < (0.2 if u else 0.25)
                     if (0.2 if u else 0.25) <= r < (0.6 if u else 0.5):
